@@ -230,3 +230,11 @@ class PointTree:
             else:
                 hits = [hits[j] for j in perms[int(sel) % len(perms)]]
         return numpy.array(hits, dtype=numpy.intp)
+
+
+class _Exterior:
+    def __init__(self, poly):
+        self.coords = list(poly.coords) + [poly.coords[0]]      # closed ring, as shapely exposes it
+
+
+SymPoly.exterior = property(lambda self: _Exterior(self))
